@@ -109,3 +109,12 @@ theorem C16_noise_inert (pre post : List Str) (l : Str) (h : '=' ∉ l) :
 /-- non-vacuity: two records, a shared key present only in the second -/
 example : (segments [] ["PKGNAME=a-1".toList, [], "PKGNAME=b-2".toList, "CATEGORIES=x".toList]) =
     [["PKGNAME=a-1".toList], ["PKGNAME=b-2".toList, "CATEGORIES=x".toList]] := by decide
+
+/-- **Typed extraction of every scalar field**: for every block and every key, the value the
+    deserialiser hands to a field — `PKGNAME`, `PKG_LOCATION`, the nine optional strings, and the
+    text later split into `ALL_DEPENDS` / `SCAN_DEPENDS` / `MULTI_VERSION` items — is the
+    trimmed value of the LAST line of that block whose trimmed key is that key; lines of other
+    blocks never contribute (a block is parsed from its own lines only, `C16_one_per_block`). -/
+theorem C16_field_is_last_line_of_block (blk : List Str) (key : String) :
+    (keyValues blk).get key = S.scalar blk key :=
+  kv_get_eq_scalar blk key
